@@ -699,81 +699,215 @@ def _collect_consts(c):
 
 @rule("KC1", "defragment copies every object with raw data, raw timestamps and its own name/properties", floor=9)
 def kc1(ctx, R):
+    """The objects defragment writes are found as constructor calls of RootObject / GroupObject / ChannelObject in defragment and the
+    helpers it calls (generators included); their arguments are read per parameter in normal form, with helper parameters replaced
+    by the caller's arguments, and related to the loops over file.groups() and group.channels() they sit in."""
+    from .sym import Sym, show, alpha
+    from .sem import call_arg, match, W, find, calls_to, subst
+    from .region import region, must_call_nodes, call_targets
+    from .flow import resolve_call
     prog = ctx.prog
     fi = prog.func("writer.TdmsWriter.defragment")
-    cfg = ctx.cfg(fi)
-    src = [c for c in walk_body(fi.node) if isinstance(c, ast.Call) and call_name(c) in ("TdmsFile", "TdmsFile.read")]
+    TF = prog.cls("tdms.TdmsFile")
+    sy0 = Sym(prog, fi, fi.cls, inline=False)
+    src = [c for c in walk_body(fi.node) if isinstance(c, ast.Call) and isinstance(c.func, (ast.Name, ast.Attribute)) and (
+        prog.resolve_class(fi.module, c.func) is TF or (isinstance(c.func, ast.Attribute) and prog.resolve_class(fi.module, c.func.value) is TF and c.func.attr in ("read", "read_metadata", "open")))]
     if not src:
         raise AnchorMissing("writer.TdmsWriter.defragment: source TdmsFile(...)")
     kw = {k.arg: k.value for k in src[0].keywords}
+    how = c_attr = src[0].func.attr if isinstance(src[0].func, ast.Attribute) and prog.resolve_class(fi.module, src[0].func) is not TF else "__init__"
     R.check(prog.try_fold(kw.get("raw_timestamps")) is True, "writer.TdmsWriter.defragment::raw_timestamps=True", fi.where(src[0]),
             "source is read with raw timestamps (full precision)", "the source is read without raw_timestamps=True: timestamps are copied at microsecond precision")
-    R.check(prog.try_fold(kw.get("read_metadata_only")) is not True and call_name(src[0]) != "TdmsFile.read_metadata" and "keep_open" not in kw,
+    R.check(prog.try_fold(kw.get("read_metadata_only")) is not True and how in ("__init__", "read") and "keep_open" not in kw,
             "writer.TdmsWriter.defragment::reads data", fi.where(src[0]), "source data is read", "the source is opened without data")
-    srcvar = None
-    for n in walk_body(fi.node):
-        if isinstance(n, ast.Assign) and n.value is src[0] and isinstance(n.targets[0], ast.Name):
-            srcvar = n.targets[0].id
-    dest = [c for c in walk_body(fi.node) if isinstance(c, ast.Call) and dotted(c.func) in ("cls", "TdmsWriter")]
+    env0, _g = sy0.env_at(src[0])
+    SRC = sy0.expr(src[0], env0)
+    W_CLS = prog.cls("writer.TdmsWriter")
+    dest = [c for c in walk_body(fi.node) if isinstance(c, ast.Call) and (dotted(c.func) == "cls" or (isinstance(c.func, (ast.Name, ast.Attribute)) and prog.resolve_class(fi.module, c.func) is W_CLS))]
     if not dest:
         raise AnchorMissing("writer.TdmsWriter.defragment: destination writer")
-    dkw = {k.arg: unparse(k.value) for k in dest[0].keywords}
-    R.check(dkw.get("version") == "version" and dkw.get("index_file") == "index_file" and dest[0].args and dotted(dest[0].args[0]) == "destination",
-            "writer.TdmsWriter.defragment::destination arguments forwarded", fi.where(dest[0]), "destination, version and index_file forwarded",
-            "the destination writer is created with %s" % unparse(dest[0]))
-    # object constructors and role pairing
-    ctors = {}
-    for c in walk_body(fi.node):
-        if isinstance(c, ast.Call) and isinstance(c.func, ast.Name) and c.func.id in ("RootObject", "GroupObject", "ChannelObject"):
-            ctors.setdefault(c.func.id, []).append(c)
-    for need in ("RootObject", "GroupObject", "ChannelObject"):
-        if need not in ctors:
+    winit = prog.func("writer.TdmsWriter.__init__")
+    envd, _g = sy0.env_at(dest[0])
+    wp = [p for p in winit.params if p != "self"]
+    got = {p: call_arg(prog, dest[0], winit, p, sy0, envd) for p in wp}
+    dp = [p for p in fi.params if p not in ("cls", "self")]
+    okd = got.get(wp[0]) == ("param", dp[1]) and got.get("version") == ("param", "version") and got.get("index_file") == ("param", "index_file")
+    R.check(okd, "writer.TdmsWriter.defragment::destination arguments forwarded", fi.where(dest[0]), "destination, version and index_file forwarded",
+            "the destination writer is created with %s" % {k: show(v) for k, v in got.items() if v is not None})
+    # emit sites
+    classes = {n: prog.cls("writer." + n) for n in ("RootObject", "GroupObject", "ChannelObject")}
+    # defragment and the helpers that produce what it writes; the writer's own machinery (write_segment and below) is not part of it
+    reg, frontier = [fi], [fi]
+    for _ in range(3):
+        nxt = []
+        for f in frontier:
+            for c in walk_body(f.node):
+                if isinstance(c, ast.Call):
+                    for q in call_targets(ctx, f, c):
+                        g = prog.functions.get(q)
+                        if g is not None and g.module.name == "writer" and g not in reg and g.qual != "writer.TdmsWriter.write_segment" \
+                                and not (g.cls is not None and g.name == "__init__"):
+                            reg.append(g)
+                            nxt.append(g)
+        frontier = nxt
+    sites = {n: [] for n in classes}
+
+    _bind_memo = {}
+
+    def bindings_of(f):
+        """parameter -> caller argument (canonical, in the caller's terms), for helpers with one call site in the region"""
+        if f.qual in _bind_memo:
+            return _bind_memo[f.qual]
+        out = _bind_memo.setdefault(f.qual, {})
+        for g in reg:
+            for c in calls_to(prog, g, f.qual, g.cls):
+                sg = Sym(prog, g, g.cls, inline=False)
+                e2, _ = sg.env_at(c)
+                for p in f.params:
+                    a = call_arg(prog, c, f, p, sg, e2)
+                    if a is not None:
+                        out[p] = (g, a, e2)
+        return out
+    for f in reg:
+        sf = Sym(prog, f, f.cls, inline=False)
+        for c in walk_body(f.node):
+            if isinstance(c, ast.Call) and isinstance(c.func, (ast.Name, ast.Attribute)):
+                k = prog.resolve_class(f.module, c.func)
+                for n, ci in classes.items():
+                    if k is ci:
+                        env, guards = sf.env_at(c)
+                        sites[n].append((f, c, sf, env))
+    for need in classes:
+        if not sites[need]:
             R.violation("writer.TdmsWriter.defragment::%s" % need, fi.where(), "%s is never written" % need)
-    loops = [n for n in walk_body(fi.node) if isinstance(n, ast.For)]
-    gl = [l for l in loops if isinstance(l.iter, ast.Call) and call_name(l.iter) == "%s.groups" % srcvar]
-    if not gl:
-        raise AnchorMissing("writer.TdmsWriter.defragment: loop over file.groups()")
-    gvar = gl[0].target.id
-    cl = [l for l in ast.walk(gl[0]) if isinstance(l, ast.For) and l is not gl[0] and isinstance(l.iter, ast.Call) and call_name(l.iter) == "%s.channels" % gvar]
-    if not cl:
-        raise AnchorMissing("writer.TdmsWriter.defragment: loop over group.channels()")
-    cvar = cl[0].target.id
-    if "RootObject" in ctors:
-        a = [unparse(x) for x in ctors["RootObject"][0].args]
-        R.check(a == ["%s.properties" % srcvar], "writer.TdmsWriter.defragment::RootObject(file.properties)", fi.where(ctors["RootObject"][0]),
-                "root properties copied", "RootObject(%s)" % ", ".join(a))
-    if "GroupObject" in ctors:
-        a = [unparse(x) for x in ctors["GroupObject"][0].args]
-        R.check(a == ["%s.name" % gvar, "%s.properties" % gvar], "writer.TdmsWriter.defragment::GroupObject(group.name, group.properties)", fi.where(ctors["GroupObject"][0]),
-                "group name and properties copied", "GroupObject(%s)" % ", ".join(a))
-    if "ChannelObject" in ctors:
-        c = ctors["ChannelObject"][0]
-        a = [unparse(x) for x in c.args]
-        ok = len(a) == 4 and a[0] == "%s.name" % gvar and a[1] == "%s.name" % cvar and a[3] == "%s.properties" % cvar
-        R.check(ok, "writer.TdmsWriter.defragment::ChannelObject(group.name, channel.name, data, channel.properties)", fi.where(c),
-                "channel written under its own group/name with its own properties", "ChannelObject(%s)" % ", ".join(a))
-        data = c.args[2] if len(c.args) > 2 else None
-        okd = isinstance(data, ast.Call) and call_name(data) == "%s.read_data" % cvar and \
-            any(k.arg == "scaled" and prog.try_fold(k.value) is False for k in data.keywords) and not data.args
-        R.check(okd, "writer.TdmsWriter.defragment::raw channel data", fi.where(c), "channel.read_data(scaled=False): the whole raw channel",
-                "the data written is `%s`, not the complete raw channel data: scaled values would be stored next to the copied scaling properties" % (unparse(data) if data is not None else None))
-    # every group and every channel is written in every iteration (no filter)
-    def writes_of(name):
-        return cfg.where(lambda n: any(call_name(c) == "new_file.write_segment" and name in unparse(c) for c in node_calls(n)))
-    for loop, label, ctor in ((gl[0], "group", "GroupObject"), (cl[0], "channel", "ChannelObject")):
-        heads = cfg.where(lambda n: n.kind == "for" and n.ast is loop)
-        w = writes_of(ctor)
-        ok = bool(w)
-        for h in heads:
-            starts = [m for m, k in h.succ if k == "loop" and m not in w]
-            r = cfg.reach(starts, avoid=lambda n: n in w, follow_exc=False) if starts else set()
-            if h in r:
-                ok = False
-        R.check(ok, "writer.TdmsWriter.defragment::every %s written" % label, fi.where(loop),
+
+    def arg(site, cls_name, pname):
+        f, c, sf, env = site
+        init = prog.lookup(classes[cls_name], "__init__")[2]
+        return call_arg(prog, c, init, pname, sf, env)
+
+    def loops_of(site):
+        f, c, sf, env = site
+        return list(env.get("<iter>", ()))
+
+    def resolve_params(v, f):
+        """replace parameters of a helper by the caller's arguments; returns (value, loops of the call site)"""
+        extra = []
+        if v is None:
+            return v, extra
+        b = bindings_of(f) if f is not fi else {}
+        for p, (g, a, e2) in b.items():
+            if find(v, ("param", p)):
+                v = subst(v, ("param", p), a)
+                extra = list(e2.get("<iter>", ()))
+                if g is not fi:
+                    v, more = resolve_params(v, g)
+                    extra = more + extra
+        return v, extra
+
+    def is_src(x):
+        return x == SRC or (x[0] == "param" and False)
+    if sites["RootObject"]:
+        st = sites["RootObject"][0]
+        pv, _x = resolve_params(arg(st, "RootObject", "properties"), st[0])
+        R.check(pv == ("attr", SRC, "properties"), "writer.TdmsWriter.defragment::RootObject(file.properties)", st[0].where(st[1]),
+                "root properties copied", "RootObject(properties=%s)" % (show(alpha(pv))[:80] if pv else None))
+    G = C = None
+    if sites["GroupObject"]:
+        st = sites["GroupObject"][0]
+        gname, x1 = resolve_params(arg(st, "GroupObject", "group"), st[0])
+        gprops, x2 = resolve_params(arg(st, "GroupObject", "properties"), st[0])
+        loops = x1 + loops_of(st)
+        gl = [(it, bv) for it, bv in loops if match(("method", "groups", W("s"), (), ()), it) is not None]
+        ok = False
+        if gl:
+            it, bv = gl[-1]
+            its, _x = resolve_params(it[2], st[0])
+            ok = its == SRC and gname == ("attr", bv, "name") and gprops == ("attr", bv, "properties")
+        R.check(ok, "writer.TdmsWriter.defragment::GroupObject(group.name, group.properties)", st[0].where(st[1]),
+                "group name and properties copied for each group of file.groups()", "GroupObject(%s, %s) in loops %s" % (
+                    show(alpha(gname))[:60] if gname else None, show(alpha(gprops))[:60] if gprops else None, [show(alpha(i))[:40] for i, _b in loops]))
+    if sites["ChannelObject"]:
+        st = sites["ChannelObject"][0]
+        vals = {}
+        extra = []
+        for p in ("group", "channel", "data", "properties"):
+            vals[p], x = resolve_params(arg(st, "ChannelObject", p), st[0])
+            if len(x) > len(extra):
+                extra = x
+        loops = extra + loops_of(st)
+        cl = [(it, bv) for it, bv in loops if match(("method", "channels", W("g"), (), ()), it) is not None]
+        gl = [(it, bv) for it, bv in loops if match(("method", "groups", W("s"), (), ()), it) is not None]
+        ok = okd = False
+        if cl and gl:
+            (cit, cbv), (git, gbv) = cl[-1], gl[-1]
+            ok = cit[2] == gbv and vals["group"] == ("attr", gbv, "name") and vals["channel"] == ("attr", cbv, "name") and vals["properties"] == ("attr", cbv, "properties")
+            d = vals["data"]
+            m = match(("method", "read_data", cbv, (), W("kws")), d) if d is not None else None
+            okd = m is not None and dict(m["kws"]).get("scaled") == ("const", False) and set(dict(m["kws"])) == {"scaled"}
+        R.check(ok, "writer.TdmsWriter.defragment::ChannelObject(group.name, channel.name, data, channel.properties)", st[0].where(st[1]),
+                "channel written under its own group/name with its own properties", "ChannelObject(%s)" % ", ".join("%s=%s" % (k, show(alpha(v))[:50] if v else None) for k, v in vals.items()))
+        R.check(okd, "writer.TdmsWriter.defragment::raw channel data", st[0].where(st[1]), "channel.read_data(scaled=False): the whole raw channel",
+                "the data written is `%s`, not the complete raw channel data: scaled values would be stored next to the copied scaling properties" % (
+                    show(alpha(vals["data"]))[:100] if vals["data"] is not None else None))
+    # every group and every channel is emitted in every iteration of its loop (no filter), and what is emitted is written
+    ws_q = "writer.TdmsWriter.write_segment"
+    for name, label, meth in (("GroupObject", "group", "groups"), ("ChannelObject", "channel", "channels")):
+        if not sites[name]:
+            continue
+        init_q = prog.lookup(classes[name], "__init__")[2].qual
+        ok = False
+        where = fi.where()
+        for f in reg:
+            cfg = ctx.cfg(f)
+            for loop in [n for n in walk_body(f.node) if isinstance(n, ast.For) and isinstance(n.iter, ast.Call) and isinstance(n.iter.func, ast.Attribute) and n.iter.func.attr == meth]:
+                heads = cfg.where(lambda n: n.kind == "for" and n.ast is loop)
+                w = set(must_call_nodes(ctx, f, cfg, {init_q}))
+                good = bool(w)
+                for h in heads:
+                    starts = [m for m, k in h.succ if k == "loop" and m not in w]
+                    r = cfg.reach(starts, avoid=lambda n: n in w, follow_exc=False) if starts else set()
+                    if h in r:
+                        good = False
+                ok = ok or good
+                where = f.where(loop)
+        R.check(ok, "writer.TdmsWriter.defragment::every %s written" % label, where,
                 "each iteration over the source's %ss writes the %s object" % (label, label),
                 "a %s of the source can be skipped (its object is written only on some paths, e.g. together with its first channel): groups "
                 "without channels and their properties would be missing from the copy" % label if label == "group" else
                 "a channel of the source can be skipped")
-    rw = writes_of("RootObject")
-    R.check(bool(rw) and all(cfg.dominated_by(x, lambda n: n in rw)[0] for x in writes_of("GroupObject")), "writer.TdmsWriter.defragment::root first", fi.where(),
-            "root object written before groups", "root object is not written first")
+    # what is constructed reaches write_segment: directly as its argument, or yielded/returned by a helper whose results the caller writes
+    written = True
+    for name, lst in sites.items():
+        for f, c, sf, env in lst:
+            direct = any(isinstance(x, ast.Call) and any(t.qual == ws_q for t, _k in resolve_call(prog, f, f.cls, x)) and any(y is c for y in ast.walk(x))
+                         for x in walk_body(f.node))
+            if direct:
+                continue
+            handed = any((isinstance(x, (ast.Yield, ast.Return)) and x.value is not None and any(y is c for y in ast.walk(x.value))) for x in ast.walk(f.node))
+            if not handed:
+                written = False
+    loop_writes = False
+    cfg = ctx.cfg(fi)
+    for loop in [n for n in walk_body(fi.node) if isinstance(n, ast.For)]:
+        tv = {x.id for x in ast.walk(loop.target) if isinstance(x, ast.Name)}
+        wn = cfg.where(lambda n: any(any(t.qual == ws_q for t, _k in resolve_call(prog, fi, fi.cls, x)) and (tv & {y.id for y in ast.walk(x) if isinstance(y, ast.Name)})
+                                     for x in node_calls(n)))
+        if wn:
+            loop_writes = True
+    any_indirect = any(not any(isinstance(x, ast.Call) and any(t.qual == ws_q for t, _k in resolve_call(prog, f, f.cls, x)) and any(y is c for y in ast.walk(x))
+                               for x in walk_body(f.node)) for lst in sites.values() for f, c, sf, env in lst)
+    R.check(written and (loop_writes or not any_indirect), "writer.TdmsWriter.defragment::constructed objects are written", fi.where(),
+            "every constructed object is handed to write_segment", "an object is constructed but not handed to write_segment")
+    # root first
+    if sites["RootObject"] and sites["GroupObject"]:
+        rf, rc = sites["RootObject"][0][:2]
+        gf, gc = sites["GroupObject"][0][:2]
+        if rf is gf:
+            cfg = ctx.cfg(rf)
+            rn = cfg.where(lambda n: any(x is rc for x in node_calls(n)))
+            gn = cfg.where(lambda n: any(x is gc for x in node_calls(n)))
+            R.check(bool(rn) and all(cfg.dominated_by(x, lambda n: n in rn)[0] for x in gn), "writer.TdmsWriter.defragment::root first", rf.where(rc),
+                    "root object written before groups", "root object is not written first")
+        else:
+            R.undecided("writer.TdmsWriter.defragment::root first", fi.where(), "root and group objects are produced in different functions")
